@@ -7,7 +7,10 @@ import (
 	"strings"
 	"sync"
 
+	"github.com/ipfs/go-cid"
 	"github.com/ipld/go-ipld-prime/datamodel"
+	cidlink "github.com/ipld/go-ipld-prime/linking/cid"
+	"github.com/ipld/go-ipld-prime/node/basicnode"
 
 	"github.com/ucan-wg/go-ucan/pkg/policy"
 	"github.com/ucan-wg/go-ucan/pkg/policy/selector"
@@ -54,8 +57,17 @@ func (s St) size() int {
 var c11Lits = map[string]datamodel.Node{
 	"0": nInt(0), "1": nInt(1), "2": nInt(2), "1.0": nFloat(1.0), "1.5": nFloat(1.5), `"a"`: nStr("a"), "true": nBool(true), "null": nNull(), "[1]": nList(nInt(1)),
 	"{x:1,y:2}": nMap(kv{"x", nInt(1)}, kv{"y", nInt(2)}), "[{y:2,x:1}]": nList(nMap(kv{"y", nInt(2)}, kv{"x", nInt(1)})),
+	"link(cbor,h0)": nLink(0),
 }
-var c11LitNames = []string{"0", "1", "2", "1.0", "1.5", `"a"`, "true", "null", "[1]", "{x:1,y:2}", "[{y:2,x:1}]"}
+var c11LitNames = []string{"0", "1", "2", "1.0", "1.5", `"a"`, "true", "null", "[1]", "{x:1,y:2}", "[{y:2,x:1}]", "link(cbor,h0)"}
+
+// nLinkAs is a link with the digest of cidPool[i] under another codec or CID version: a different link.
+func nLinkAs(i int, codec uint64, v0 bool) datamodel.Node {
+	if v0 {
+		return basicnode.NewLink(cidlink.Link{Cid: cid.NewCidV0(cidPool[i].Hash())})
+	}
+	return basicnode.NewLink(cidlink.Link{Cid: cid.NewCidV1(codec, cidPool[i].Hash())})
+}
 
 func (s St) constructor() policy.Constructor {
 	switch s.Op {
@@ -354,6 +366,8 @@ var c11AVals = []namedNode{
 	// maps are unordered: the same entries inserted in either order, as a value and inside a list
 	{"{x:1,y:2}", nMap(kv{"x", nInt(1)}, kv{"y", nInt(2)})}, {"{y:2,x:1}", nMap(kv{"y", nInt(2)}, kv{"x", nInt(1)})}, {"{x:1,y:3}", nMap(kv{"x", nInt(1)}, kv{"y", nInt(3)})},
 	{"[{x:1,y:2}]", nList(nMap(kv{"x", nInt(1)}, kv{"y", nInt(2)}))},
+	// links: equal only if the whole CID is (version, codec and multihash)
+	{"link(cbor,h0)", nLink(0)}, {"link(cbor,h1)", nLink(1)}, {"link(raw,h0)", nLinkAs(0, cid.Raw, false)}, {"link(v0,h0)", nLinkAs(0, 0, true)}, {"[link(raw,h0)]", nList(nLinkAs(0, cid.Raw, false))},
 }
 var c11BVals = []namedNode{{"-", nil}, {`"a"`, nStr("a")}, {`"b"`, nStr("b")}, {"1", nInt(1)}}
 var c11LVals = []namedNode{
@@ -487,7 +501,7 @@ func c11AtomSub() *engine.Sub {
 	return &engine.Sub{
 		Name:   "atoms-truth",
 		Repeat: true,
-		Rule:   "every comparison atom (5 operators x 7 selectors (one with a negative slice bound) x 11 literals) and like atom (7 selectors x 6 patterns) as a top-level statement, on every datum {a in 25 values, b in 3, l in 5 (lists of several lengths, so that one parsed selector meets them all)}: if the selector resolves, Match = PartialMatch = classical truth (same-kind numbers only; an ordering statement with a NaN operand is false; infinite operands of ordering operators and == on NaN are don't-care); if required data is missing Match=false and PartialMatch=true; if optional data is missing both are true; non-trivial = selector resolves",
+		Rule:   "every comparison atom (5 operators x 7 selectors (one with a negative slice bound) x 12 literals) and like atom (7 selectors x 6 patterns) as a top-level statement, on every datum {a in 30 values, b in 3, l in 5 (lists of several lengths, so that one parsed selector meets them all)}: if the selector resolves, Match = PartialMatch = classical truth (same-kind numbers only; an ordering statement with a NaN operand is false; infinite operands of ordering operators and == on NaN are don't-care); if required data is missing Match=false and PartialMatch=true; if optional data is missing both are true; non-trivial = selector resolves",
 		Bound:  func(string) string { return fmt.Sprintf("%d atoms x %d data", len(c11Atoms()), len(data)) },
 		Gen: func(tier string, emit func(any) bool) {
 			for _, a := range c11Atoms() {
@@ -939,7 +953,7 @@ func C11() *engine.Check {
 	return &engine.Check{
 		Property: "C11",
 		Level:    "model_checking",
-		Subs:     []*engine.Sub{c11AtomSub(), c11StructSub(), c11ConcatSub(), c11ConcSub(), concRaceSub("C11")},
+		Subs:     []*engine.Sub{c11AtomSub(), c11SharedSub(), c11StructSub(), c11ConcatSub(), c11ConcSub(), concRaceSub("C11")},
 		Assumptions: []string{
 			"'every selector resolves' is decided with the real selector.Select per statement (per element under quantifiers); selector semantics are C12's business",
 			"don't-care: infinite operands of ordering operators, == on NaN, the empty or, quantifiers over non-lists",
